@@ -232,6 +232,10 @@ def observe(ctx: fw.Ctx, names):
                 if not sg.quoted and render_seg(sg.name) != sg.name:
                     ctx.fail({"clause": "malformed-accepted", "class": classify(sg.name)},
                              {"path_text": s}, f"path text {s!r} accepted bare segment {sg.name!r}")
+            if not ep_path_wellformed(s):
+                ctx.fail({"clause": "malformed-accepted", "class": "grammar"}, {"path_text": s},
+                         f"path text {s!r} is not a sequence of bare / quoted segments separated by dots but was accepted as "
+                         f"{[(x.name, x.quoted) for x in segs]!r}")
         except ValueError:
             ctx.count("rejected_paths")
 
@@ -366,6 +370,12 @@ def cli_paths(ctx: fw.Ctx):
                 ctx.fail({"clause": "cli-path", "cmd": cmd}, {"doc": base, "args": args, "stdout": got if isinstance(got, str) else None},
                          f"nima {' '.join(args)!r} on {base!r}: command line gives {got!r}, the library {want!r} "
                          f"(name {nm!r}, code points {[hex(ord(c)) for c in nm]})")
+
+
+def ep_path_wellformed(s: str) -> bool:
+    from .. import editprops as ep
+
+    return ep.path_wellformed(s) and not s.startswith("@")
 
 
 def is_nix_ident(n: str) -> bool:
